@@ -341,8 +341,8 @@ fn main() {
     }
     if class <= 1 {
         println!(
-            "STATS\titerator_panics_armed={}\tlying_iterators={}\tconstructions_unwound={}\tuninit_constructions={}\tcallback_panics={}\tinto_thin_refusals={}",
-            stats[0], stats[1], stats[2], stats[3], stats[4], stats[5]
+            "STATS\titerator_panics_armed={}\tlying_iterators={}\tconstructions_unwound={}\tuninit_constructions={}\tcallback_panics={}\tinto_thin_refusals={}\thuge_lengths_refused={}",
+            stats[0], stats[1], stats[2], stats[3], stats[4], stats[5], stats[6]
         );
     }
     println!("RUN-OK\tscenarios={}", to - from);
